@@ -3,19 +3,19 @@
 (* RaceFree, LockOK and NoTornReply hold for ANY number of operations, not only    *)
 (* for the NOps TLC explores.                                                       *)
 EXTENDS Lock, Apalache
-WPC == {"idle", "w_lock", "w_amb_b", "w_amb_e", "w_mut_b", "w_mut_e", "w_unlock"}
-RPC == {"idle", "r_lock", "r_walk_b", "r_walk_e", "r_look_b", "r_look_e", "r_unlock", "r_allow_lock", "r_allow_b", "r_allow_e"}
+WPC == {"idle", "w_lock", "w_wait", "w_amb_b", "w_amb_e", "w_mut_b", "w_mut_e", "w_unlock"}
+RPC == {"idle", "r_lock", "r_walk_b", "r_walk_e", "r_re_lock", "r_look_b", "r_look_e", "r_unlock", "r_allow_lock", "r_allow_b", "r_allow_e"}
 WHolds == {"w_amb_b", "w_amb_e", "w_mut_b", "w_mut_e", "w_unlock"}
-RHolds == {"r_walk_b", "r_walk_e", "r_look_b", "r_look_e", "r_unlock", "r_allow_b", "r_allow_e"}
-TypeOK == /\ pc \in [Procs -> WPC \cup RPC] /\ wl \in Writers \cup {"none"} /\ rl \in SUBSET Readers
+RHolds == {"r_walk_b", "r_walk_e", "r_re_lock", "r_look_b", "r_look_e", "r_unlock", "r_allow_b", "r_allow_e"}
+TypeOK == /\ pc \in [Procs -> WPC \cup RPC] /\ wl \in Writers \cup {"none"} /\ rl \in SUBSET Readers /\ ww \in SUBSET Writers
           /\ acc \in [Procs -> {"none", "r", "w"}] /\ left \in [Procs -> Nat] /\ live \in BOOLEAN /\ gen \in Nat
           /\ DOMAIN view = Procs /\ (\A p \in Procs : view[p][2] >= 0) /\ reply \in [Procs -> {"-", "404", "200", "torn"}]
 IndInv == /\ TypeOK
-          /\ \A p \in Writers : /\ pc[p] \in WPC /\ (pc[p] \in WHolds <=> wl = p)
+          /\ \A p \in Writers : /\ pc[p] \in WPC /\ (pc[p] \in WHolds <=> wl = p) /\ (pc[p] = "w_wait" <=> p \in ww)
                                 /\ acc[p] = (IF pc[p] = "w_amb_e" THEN "r" ELSE IF pc[p] = "w_mut_e" THEN "w" ELSE "none")
           /\ \A p \in Readers : /\ pc[p] \in RPC /\ (pc[p] \in RHolds <=> p \in rl)
                                 /\ acc[p] = (IF pc[p] \in {"r_walk_e", "r_look_e", "r_allow_e"} THEN "r" ELSE "none")
-                                /\ (pc[p] \in {"r_look_b", "r_look_e"} => view[p] = <<live, gen>>)
+                                /\ (pc[p] \in {"r_re_lock", "r_look_b", "r_look_e"} => view[p] = <<live, gen>>)
                                 /\ reply[p] # "torn"
           /\ (wl # "none" => rl = {})
 IndInit == view = Gen(5) /\ IndInv
